@@ -242,7 +242,9 @@ def discover_region() -> int:
 def body(tid):
     TS = _store_cls()
     try:
-        s = TS.create()
+        # StoreGuard.tla EntryPoints: the factory methods and the public constructor are the same TryCreate; in the
+        # races thread 1 comes through the factory, thread 2 through the constructor
+        s = TS.create() if tid == 1 else TS(mode=TS.FileMode.CREATE)
     except RuntimeError:
         return False
     # do not close inside the race; closing is exercised by the sequential traces
@@ -263,6 +265,8 @@ def _constructor(op, tmp):
     TS = _store_cls()
     if op == 'c':
         return TS.create()
+    if op == 'cd':  # the public constructor called directly (what the factory methods do for the caller)
+        return TS(mode=TS.FileMode.CREATE)
     if op == 'cs':  # through a subclass: the owner record belongs to the process, not to the class used
         if not hasattr(_constructor, 'sub'):
             _constructor.sub = type('VerifSubclassStore', (TS,), {})
